@@ -8,6 +8,7 @@ import (
 	"crypto/md5"
 	"encoding/binary"
 	"fmt"
+	"github.com/youzan/ZanRedisDB/node"
 	"io/ioutil"
 	"log"
 	"sort"
@@ -704,6 +705,15 @@ func (c *Cluster) restart(nd *rnode) {
 	snap, err := nd.st.Snapshot()
 	if err != nil {
 		panic(err)
+	}
+	// what replayWAL does before it hands the stored hard state to raft (the real function, through a shim)
+	if hs, _, herr := nd.st.InitialState(); herr == nil {
+		before := hs
+		node.VerifReconcileHardState(&hs, &snap)
+		if hs != before {
+			nd.st.SetHardState(hs)
+			c.Obs["restart-hard-state-reconciled-with-snapshot"]++
+		}
 	}
 	nd.applied = snap.Metadata.Index
 	nd.conf = canonCS(snap.Metadata.ConfState)
